@@ -17,7 +17,7 @@ RULE = ("Cases: an initial payload list over a 2-letter alphabet (equal payloads
         "Distinct = distinct case JSON.")
 EXPLANATION = "exhaustive sub-domain: all operation sequences of length<=3 on 0..3 equal payloads"
 ASSUMPTIONS = ["only nodes that belong to the list are passed to node operations (as the statement says)"]
-FLOORS = {"move": (0.5, "hist"), "equal-payload-move": (0.3, "hist")}
+FLOORS = {"move": (0.36, "hist"), "equal-payload-move": (0.221, "hist")}
 SHARDS = {"quick": 12, "thorough": 14}
 
 NODE_OPS = ("remove", "move_to_front", "move_to_back")
